@@ -754,7 +754,8 @@ for (int n = 0; n < count; n++)
     {
       define++;
 
-      strcpy(asm_context->def_param_stack_data + ptr, params + params_ptr[((int)*define) - 1]);
+      // The parameter number is one unsigned byte (1 to 255).
+      strcpy(asm_context->def_param_stack_data + ptr, params + params_ptr[((int)(uint8_t)*define) - 1]);
 
       while (*(asm_context->def_param_stack_data + ptr) != 0) { ptr++; }
     }
